@@ -39,7 +39,9 @@ def expr(e, locs):
         if e.value is None:
             return "PNone"
         if isinstance(e.value, str):
-            return '(PStr "")' if e.value == "" else '(PStr "msg")'
+            if len(e.value) <= 2 and e.value.isascii() and e.value.isprintable() and '"' not in e.value:
+                return "(PStr %s)" % q(e.value)          # separators such as "." are data, not messages
+            return '(PStr "msg")'
         raise Bad("constant %r" % (e.value,))
     if isinstance(e, ast.JoinedStr):
         # a message: every interpolated expression must itself be in the fragment (so that it cannot raise / have effects
@@ -54,6 +56,10 @@ def expr(e, locs):
         return "(PAttr %s %s)" % (expr(e.value, locs), q(e.attr))
     if isinstance(e, ast.BoolOp) and isinstance(e.op, ast.And) and len(e.values) == 2:
         return "(PAnd %s %s)" % (expr(e.values[0], locs), expr(e.values[1], locs))
+    if isinstance(e, ast.BoolOp) and isinstance(e.op, ast.Or) and len(e.values) == 2:
+        return "(POr %s %s)" % (expr(e.values[0], locs), expr(e.values[1], locs))
+    if isinstance(e, ast.Call) and isinstance(e.func, ast.Attribute) and e.func.attr == "startswith" and len(e.args) == 1 and not e.keywords:
+        return "(PStartsWith %s %s)" % (expr(e.func.value, locs), expr(e.args[0], locs))
     if isinstance(e, ast.UnaryOp) and isinstance(e.op, ast.Not):
         return "(PNot %s)" % expr(e.operand, locs)
     if isinstance(e, ast.UnaryOp) and isinstance(e.op, ast.USub):
@@ -176,6 +182,10 @@ def stmt(s, locs):
             a, b = expr(it.args[0], locs), expr(it.args[1], locs)
             locs.add(tg.elts[0].id); locs.add(tg.elts[1].id)
             return "(SForZip %s %s %s %s %s)" % (q(tg.elts[0].id), q(tg.elts[1].id), a, b, stmts(s.body, locs))
+    if isinstance(s, ast.For) and not s.orelse and isinstance(s.target, ast.Name) and not (isinstance(s.iter, ast.Call) and isinstance(s.iter.func, ast.Name)):
+        a = expr(s.iter, locs)
+        locs.add(s.target.id)
+        return "(SForIn %s %s %s)" % (q(s.target.id), a, stmts(s.body, locs))
     if isinstance(s, ast.Try):
         ev = eval_idiom(s, locs)
         if ev is not None:
